@@ -9,6 +9,9 @@
 //	                 A malformed stream: invalid SDL (must be rejected by the loader) and loaded schemas
 //	                 damaged afterwards (dangling type references: the nil dereferences of the Go code).
 //	-mode sdl      : the same line for the schema in -files (a probe schema directory's *.graphql)
+//	-mode overrides: runtime schemas (Config.Schema) to serve on a server generated from -files: the compiled-in
+//	                 sources again, directed ones (-corpus), seeded subset / superset / changed / mixed edits of the
+//	                 compiled-in SDL, unrelated random schemas (override.go)
 //	-mode prelude  : the `__*` introspection types in the execution model's schema format
 //	-mode gatecfg  : Case JSON lines whose `exts` register handler extensions around the gate (the real
 //	                 extension.Introspection, parameter / context mutators, operation middleware; per-request
@@ -1234,6 +1237,15 @@ func main() {
 			}
 		}
 		genGate(rng.New(*seed^0xC16), count, *fed)
+	case "overrides":
+		count := *n
+		if count == 0 {
+			count = 24
+			if *tier == "thorough" {
+				count = 240
+			}
+		}
+		genOverrides(rng.New(*seed^0xC16507), *files, count, *corpus)
 	case "gatecfg":
 		count := *n
 		if count == 0 {
